@@ -562,6 +562,10 @@ def jobs(tier):
     for f in [x for x in factors if x > 1]:
         js.append(Job(f"fp_lemma[floor,f={f}]", job_fp_lemma, op="floor", max_x=65536, max_f=f))
         js.append(Job(f"fp_lemma[ceil,f={f}]", job_fp_lemma, op="ceil", max_x=65536, max_f=f))
+    # the shapes the clip box must contain are placed by what paint.transformed emits for the reuse affine
+    from harness import C16
+
+    js.append(Job("contract:transformed", C16.job_transformed))
     return js
 
 
